@@ -137,9 +137,10 @@ func runGrammar(c *ShardCtx, g *peg.Grammar, f *family) {
 	}
 	type refKey struct {
 		in, opt, script int
-		hasState        bool
+		hasState, optG  bool
 	}
 	refs := map[refKey]*peg.Result{}
+	var inlined map[string]bool
 	c.Res.confSeen++
 	confGen := -1
 	if f.confEvery > 0 && c.Res.confSeen%f.confEvery == 1 && len(c.Res.Conf) < f.confQuota {
@@ -162,8 +163,14 @@ func runGrammar(c *ShardCtx, g *peg.Grammar, f *family) {
 					continue
 				}
 				for si, script := range scripts {
-					k := refKey{ii, oi, si, b.Flags.HasState()}
+					k := refKey{ii, oi, si, b.Flags.HasState(), gen.OptGrammar}
 					ro := core.RefOptions(&o, b.Flags)
+					if gen.OptGrammar {
+						if inlined == nil {
+							inlined = peg.InlinableRules(g)
+						}
+						ro.Inlined = inlined
+					}
 					if f.refOpts != nil {
 						f.refOpts(&ro)
 					}
